@@ -29,6 +29,11 @@ CHECKS = {
    text="Seeded (facts, constraints, goal) instances, each executed under 8 (quick) / 32 (thorough) simulator-owned hash seeds on fresh OS threads (run-to-run variation = hash iteration order, made exactly replayable through the getrandom seam); query_with_repairs compared with the intersection of answers over all subset-maximal consistent subsets (all subsets enumerated); repair-aware materialisation must end consistent.",
    note="Constraint violation = premise join non-empty, as violates_constraints does; instances have <= 12 facts so all subsets can be enumerated by the oracle.",
    technique="deterministic simulation: hash-seed (iteration-order) perturbation with exact replay, brute-force repairs oracle"),
+
+ "C12": dict(engine="dlsim", level="exploration", ref="6.10",
+   text="Seeded window-consistent stream histories over 2-3 simulated windows (+ static graph) with arrivals, re-arrivals (renewal), bursts and gaps; the simulated clock picks increasing evaluation times (dense, sparse, jumping past every expiry); at every step the real incremental_sds_plus (carried state) is compared per component, fact by fact and expiry by expiry, with a from-scratch reference least model with the expiry lattice; naive_sds_plus must agree on fact sets.",
+   note="Window contents are simulated as the quantifier states (a triple listed once with its latest arrival until it expires); the RSPEngine wiring that builds the SDS from real windows is not part of this check.",
+   technique="deterministic simulation: simulated stream/evaluation clock, step-by-step refinement against a from-scratch reference model"),
 }
 ENGINES = [
   {"name": "hybsim", "path": "sim/ksim-core/src/hybsim.rs", "serves_properties": ["C08"], "kind_free_text": "lineage/controller simulator under a scripted HybridClock"},
